@@ -23,6 +23,14 @@ func c18query(id uint16, name string) []byte {
 	return raw
 }
 
+// the server comes from the library's constructor and is given the harness's socket instead of joining the multicast group
+func c18server(handlers []Handler, conn *net.UDPConn) *Server {
+	s, err := NewServer("udp4", handlers)
+	vAssume(err == nil && s != nil)
+	s.Conn = conn
+	return s
+}
+
 func c18loopback() (*net.UDPConn, *net.UDPConn, bool) {
 	a, err1 := net.ListenUDP("udp", &net.UDPAddr{IP: net.IPv4(127, 0, 0, 1)})
 	b, err2 := net.ListenUDP("udp", &net.UDPAddr{IP: net.IPv4(127, 0, 0, 1)})
@@ -51,7 +59,7 @@ func H_C18_llmnr_server_isolation() {
 		w.WriteMessage(r)
 		return false
 	})
-	s := &Server{Handlers: []Handler{echo}, Closed: make(chan struct{}), Conn: srv, Network: "udp4"}
+	s := c18server([]Handler{echo}, srv)
 	to := srv.LocalAddr().(*net.UDPAddr)
 	cli.WriteToUDP(c18query(id0, names[0]), to)
 	cli.WriteToUDP(c18query(id1, names[1]), to)
@@ -156,8 +164,7 @@ func H_C18_llmnr_close() {
 	defer peer.Close()
 	done := make(chan struct{})
 	if vParam("who") == 0 {
-		s := &Server{Handlers: []Handler{HandlerFunc(func(*Server, net.Addr, ResponseWriter, *Message) bool { return false })},
-			Closed: make(chan struct{}), Conn: conn, Network: "udp4"}
+		s := c18server([]Handler{HandlerFunc(func(*Server, net.Addr, ResponseWriter, *Message) bool { return false })}, conn)
 		go func() {
 			s.Serve()
 			close(done)
@@ -198,8 +205,7 @@ func H_C18_llmnr_close_before_serve() {
 	}
 	defer peer.Close()
 	defer conn.Close()
-	s := &Server{Handlers: []Handler{HandlerFunc(func(*Server, net.Addr, ResponseWriter, *Message) bool { return false })},
-		Closed: make(chan struct{}), Network: "udp4"}
+	s := c18server([]Handler{HandlerFunc(func(*Server, net.Addr, ResponseWriter, *Message) bool { return false })}, nil)
 	s.Close()
 	select {
 	case <-s.Closed:
@@ -245,7 +251,7 @@ func H_C18_llmnr_server_two_clients() {
 		w.WriteMessage(r)
 		return false
 	})
-	s := &Server{Handlers: []Handler{echo}, Closed: make(chan struct{}), Conn: srv, Network: "udp4"}
+	s := c18server([]Handler{echo}, srv)
 	to := srv.LocalAddr().(*net.UDPAddr)
 	cli0.WriteToUDP(c18query(id0, "alpha"), to)
 	cli1.WriteToUDP(c18query(id1, "bravo"), to)
